@@ -14,13 +14,34 @@ package storageos
 //     external path) or a not-exist error, and Walk on every probe prefix visits exactly the model's objects
 //     path-wise under the prefix, each once.
 //
+// Targeted disk scenarios (ca-R4, functions vr4*; clauses of the C13/C14/C15 contracts of ca-D2), each on a fresh directory
+// tree {a.txt, d/b.txt, emptydir/, linkfile -> ../outside2/p.txt, linkdir -> ../outside, dangling -> nowhere}, with a
+// bucket that does not follow symlinks and with one that does (provider option AND bucket option):
+//
+//   - Put: plain and atomic puts of empty / non-empty data to a new path, an existing path, a path in a directory
+//     that does not exist yet; the whole tree (and everything beside the bucket root, including $TMPDIR) is
+//     snapshotted around every step. Documented: an atomic put leaves the final path exactly as it was (absent or
+//     with its old bytes) until Close succeeds, writes nothing outside the bucket root, and leaves no other file
+//     behind; a failed Write (the file is closed under the writer), a failed Close and a failed rename (the final
+//     path is a non-empty directory) return an error, leave the final path as it was and no temporary file; a put
+//     below a regular file or (without the symlink option) through a symlinked directory fails and writes nothing.
+//   - Get/Stat/validateExternalPath: only regular files are objects (a symlink to a file only when symlinks are
+//     followed); directories, dangling links, absent paths and paths below a regular file are not-exist errors that
+//     name the BUCKET path; a failure yields no object; an object carries path, external path, local path, bytes.
+//   - Walk: exactly the regular files under the prefix, symlinks followed exactly when the option is on.
+//   - Delete: returns nil exactly when the path existed and is gone afterwards (a non-empty directory is not
+//     removed: error); a link is removed, not its target. DeleteAll removes a link, not the target's content.
+//   - provider/bucket options: symlinks are followed only if both ask for it; the root must be a directory.
+//
 // Not asserted for the disk bucket (directories are not objects, but the file system knows them): Delete of a
 // directory name, and operations on paths below a regular file.
 
 import (
 	"context"
+	"errors"
 	"fmt"
 	"io"
+	"io/fs"
 	"os"
 	"path"
 	"sort"
@@ -263,6 +284,10 @@ func vm14Sequences(ctx context.Context, v *vm14) int {
 	return len(seqs)
 }
 
+// The same harness serves the C13 / C14 / C15 obligations of the package (registered per property).
+func TestVerifReplayC13(t *testing.T) { TestVerifReplayC14(t) }
+func TestVerifReplayC15(t *testing.T) { TestVerifReplayC14(t) }
+
 func TestVerifReplayC14(t *testing.T) {
 	fn := os.Getenv("VERIF_REPLAY_FUNC")
 	ctx := context.Background()
@@ -271,8 +296,12 @@ func TestVerifReplayC14(t *testing.T) {
 	switch fn {
 	case "Get", "Stat", "Walk", "Put", "Delete", "DeleteAll", "getExternalPath", "getExternalPrefix", "validateExternalPath", "newBucket", "NewReadWriteBucket",
 		"newReadObjectCloser", "newWriteObjectCloser", "Close", "Write":
+		tried += vr4Scenarios(t, ctx, v, fn) // the targeted disk scenarios first: their input is the most specific one
 		vm14Root = t.TempDir()
 		tried += vm14Sequences(ctx, v)
+	case "Read", "SetExternalPath", "SetLocalPath", "SetExternalAndLocalPathsSupported", "ProviderWithSymlinks", "ReadWriteBucketWithSymlinksIfSupported",
+		"newProvider", "NewProvider", "newReadWriteBucketOptions", "validateDirPathExists", "newErrNotDir", "toStorageError", "Store", "Load":
+		tried += vr4Scenarios(t, ctx, v, fn)
 	default:
 		fmt.Printf("VERIF-REPLAY no harness for %q\n", fn)
 		return
@@ -282,4 +311,605 @@ func TestVerifReplayC14(t *testing.T) {
 	} else {
 		fmt.Printf("VERIF-REPLAY %d failing probes in total for %s (%d sequences tried)\n", v.found, fn, tried)
 	}
+}
+
+// ---------------------------------------------------------------------------------------------------------------
+// ca-R4: targeted disk scenarios
+
+// vr4Snap lists a directory tree without following links: relative path -> "dir" | "link -> target" | "file <bytes>".
+func vr4Snap(root string) map[string]string {
+	out := map[string]string{}
+	_ = filepath.Walk(root, func(p string, info os.FileInfo, err error) error {
+		if err != nil || p == root {
+			return nil
+		}
+		rel, _ := filepath.Rel(root, p)
+		rel = filepath.ToSlash(rel)
+		switch {
+		case info.Mode()&os.ModeSymlink != 0:
+			target, _ := os.Readlink(p)
+			out[rel] = "link -> " + target
+		case info.IsDir():
+			out[rel] = "dir"
+		default:
+			data, _ := os.ReadFile(p)
+			out[rel] = fmt.Sprintf("file %q", data)
+		}
+		return nil
+	})
+	return out
+}
+
+func vr4Diff(want, got map[string]string) string {
+	var diffs []string
+	for p, w := range want {
+		if g, ok := got[p]; !ok {
+			diffs = append(diffs, fmt.Sprintf("%s (%s) is gone", p, w))
+		} else if g != w {
+			diffs = append(diffs, fmt.Sprintf("%s is %s instead of %s", p, g, w))
+		}
+	}
+	for p, g := range got {
+		if _, ok := want[p]; !ok {
+			diffs = append(diffs, fmt.Sprintf("new entry %s (%s)", p, g))
+		}
+	}
+	sort.Strings(diffs)
+	return strings.Join(diffs, ", ")
+}
+
+func vr4Copy(m map[string]string) map[string]string {
+	out := map[string]string{}
+	for k, v := range m {
+		out[k] = v
+	}
+	return out
+}
+
+type vr4Env struct {
+	base, root string
+	symlinks   bool
+	b          storage.ReadWriteBucket
+}
+
+func (e *vr4Env) String() string {
+	if e.symlinks {
+		return "bucket following symlinks over {a.txt, d/b.txt, emptydir/, linkfile -> ../outside2/p.txt, linkdir -> ../outside, dangling}"
+	}
+	return "bucket (no symlinks) over {a.txt, d/b.txt, emptydir/, linkfile -> ../outside2/p.txt, linkdir -> ../outside, dangling}"
+}
+
+// vr4NewEnv builds base/{root, outside/o.txt, outside2/p.txt, tmp/} and points $TMPDIR at base/tmp.
+func vr4NewEnv(t *testing.T, symlinks bool) *vr4Env {
+	base, err := os.MkdirTemp(t.TempDir(), "e")
+	if err != nil {
+		t.Fatal(err)
+	}
+	if base, err = filepath.EvalSymlinks(base); err != nil {
+		t.Fatal(err)
+	}
+	root := filepath.Join(base, "root")
+	for _, d := range []string{"root/d", "root/emptydir", "outside", "outside2", "tmp"} {
+		if err := os.MkdirAll(filepath.Join(base, filepath.FromSlash(d)), 0o755); err != nil {
+			t.Fatal(err)
+		}
+	}
+	for p, data := range map[string]string{"root/a.txt": "A", "root/d/b.txt": "B", "outside/o.txt": "O", "outside2/p.txt": "P"} {
+		if err := os.WriteFile(filepath.Join(base, filepath.FromSlash(p)), []byte(data), 0o644); err != nil {
+			t.Fatal(err)
+		}
+	}
+	for link, target := range map[string]string{"linkfile": "../outside2/p.txt", "linkdir": "../outside", "dangling": "../outside/nothing"} {
+		if err := os.Symlink(filepath.FromSlash(target), filepath.Join(root, link)); err != nil {
+			t.Fatal(err)
+		}
+	}
+	t.Setenv("TMPDIR", filepath.Join(base, "tmp"))
+	var b storage.ReadWriteBucket
+	if symlinks {
+		b, err = NewProvider(ProviderWithSymlinks()).NewReadWriteBucket(root, ReadWriteBucketWithSymlinksIfSupported())
+	} else {
+		b, err = NewProvider().NewReadWriteBucket(root)
+	}
+	if err != nil {
+		t.Fatal(err)
+	}
+	return &vr4Env{base: base, root: root, symlinks: symlinks, b: b}
+}
+
+func vr4NotExistNaming(err error, path string) bool {
+	var pathErr *fs.PathError
+	return err != nil && storage.IsNotExist(err) && errors.As(err, &pathErr) && pathErr.Path == path
+}
+
+func vr4Scenarios(t *testing.T, ctx context.Context, v *vm14, fn string) int {
+	tried := 0
+	groups := map[string]bool{}
+	switch fn {
+	case "Put", "Write", "newWriteObjectCloser", "SetExternalPath", "SetLocalPath", "newErrNotDir", "Store", "Load", "toStorageError":
+		groups["put"] = true
+	case "Close":
+		groups["put"], groups["read"] = true, true
+	case "Get", "Stat", "validateExternalPath", "getExternalPath", "newReadObjectCloser", "Read":
+		groups["read"] = true
+	case "Walk", "getExternalPrefix":
+		groups["walk"] = true
+	case "Delete", "DeleteAll":
+		groups["delete"] = true
+	default:
+		groups["provider"] = true
+	}
+	if strings.Contains(os.Getenv("VERIF_REPLAY_OBLIGATION"), "symlink") || strings.Contains(os.Getenv("VERIF_REPLAY_OBLIGATION"), "follow") {
+		groups["provider"] = true
+	}
+	for _, symlinks := range []bool{false, true} {
+		if groups["put"] {
+			tried += vr4Put(t, ctx, v, symlinks)
+		}
+		if groups["read"] {
+			tried += vr4Read(t, ctx, v, symlinks)
+		}
+		if groups["walk"] {
+			tried += vr4Walk(t, ctx, v, symlinks)
+		}
+		if groups["delete"] {
+			tried += vr4Delete(t, ctx, v, symlinks)
+		}
+	}
+	if groups["provider"] {
+		tried += vr4Provider(t, ctx, v)
+	}
+	return tried
+}
+
+func vr4Put(t *testing.T, ctx context.Context, v *vm14, symlinks bool) int {
+	tried := 0
+	// successful puts
+	for _, path := range []string{"new.txt", "a.txt", "d/b.txt", "d/new.txt", "n/e/w.txt", "emptydir/x"} {
+		for _, data := range []string{"", "new data"} {
+			for _, atomic := range []bool{false, true} {
+				tried++
+				e := vr4NewEnv(t, symlinks)
+				input := fmt.Sprintf("%s: Put(%q, atomic=%v), Write(%q), Close", e, path, atomic, data)
+				before, beside := vr4Snap(e.root), vr4Snap(e.base)
+				var opts []storage.PutOption
+				if atomic {
+					opts = append(opts, storage.PutWithAtomic())
+				}
+				w, err := e.b.Put(ctx, path, opts...)
+				if err != nil || w == nil {
+					v.report("%s: Put fails: %v (documented: the parent directories are created as needed and the put succeeds)", input, err)
+					continue
+				}
+				final := filepath.Join(e.root, filepath.FromSlash(path))
+				old, hadOld := before[path]
+				check := func(when string) bool {
+					now, has := vr4Snap(e.root)[path]
+					if has != hadOld || now != old {
+						if !has {
+							now = "absent"
+						}
+						was := old
+						if !hadOld {
+							was = "absent"
+						}
+						v.report("%s: %s the final path %s is %s; an atomic put must leave it as it was (%s) until Close succeeds", input, when, path, now, was)
+						return false
+					}
+					outside := vr4Snap(e.base)
+					for p := range outside {
+						if p == "root" || strings.HasPrefix(p, "root/") {
+							delete(outside, p)
+						}
+					}
+					want := vr4Copy(beside)
+					for p := range want {
+						if p == "root" || strings.HasPrefix(p, "root/") {
+							delete(want, p)
+						}
+					}
+					if d := vr4Diff(want, outside); d != "" {
+						v.report("%s: %s files OUTSIDE the bucket root changed (TMPDIR=%s): %s; documented: the temporary file lives beside the final path", input, when, filepath.Join(e.base, "tmp"), d)
+						return false
+					}
+					_, statErr := e.b.Stat(ctx, path)
+					if hadOld != (statErr == nil) {
+						v.report("%s: %s Stat(%q) returns %v although the object was %v before the put began", input, when, path, statErr, map[bool]string{true: "present", false: "absent"}[hadOld])
+						return false
+					}
+					return true
+				}
+				if atomic && !check("after Put, before any Write,") {
+					_ = w.Close()
+					continue
+				}
+				n, err := w.Write([]byte(data))
+				if err != nil || n != len(data) {
+					v.report("%s: Write returns %d, %v", input, n, err)
+					_ = w.Close()
+					continue
+				}
+				if atomic && !check("after Write, before Close,") {
+					_ = w.Close()
+					continue
+				}
+				if err := w.SetExternalPath("x"); err != storage.ErrSetExternalPathUnsupported {
+					v.report("%s: SetExternalPath on the disk writer returns %v; documented storage.ErrSetExternalPathUnsupported", input, err)
+				}
+				if err := w.SetLocalPath("x"); err != storage.ErrSetLocalPathUnsupported {
+					v.report("%s: SetLocalPath on the disk writer returns %v; documented storage.ErrSetLocalPathUnsupported", input, err)
+				}
+				if err := w.Close(); err != nil {
+					v.report("%s: Close fails: %v", input, err)
+					continue
+				}
+				want := vr4Copy(before)
+				want[path] = fmt.Sprintf("file %q", data)
+				for dir := filepath.ToSlash(filepath.Dir(filepath.FromSlash(path))); dir != "."; dir = filepath.ToSlash(filepath.Dir(filepath.FromSlash(dir))) {
+					want[dir] = "dir"
+				}
+				if d := vr4Diff(want, vr4Snap(e.root)); d != "" {
+					v.report("%s: afterwards the bucket directory differs from {old tree + %s = %q}: %s", input, path, data, d)
+					continue
+				}
+				if got, err := os.ReadFile(final); err != nil || string(got) != data {
+					v.report("%s: the file %s holds %q, %v", input, final, got, err)
+				}
+				if _, err := w.Write([]byte("more")); err == nil {
+					v.report("%s: a Write after Close succeeds", input)
+				}
+			}
+		}
+	}
+	// failing atomic puts: the final path stays as it was, no temporary file stays behind, the failure is returned
+	for _, path := range []string{"a.txt", "d/new.txt"} {
+		for _, failure := range []string{"write", "close"} {
+			tried++
+			e := vr4NewEnv(t, symlinks)
+			input := fmt.Sprintf("%s: Put(%q, atomic), the file is closed under the writer, then %s", e, path, map[string]string{"write": "Write(\"new\") and Close", "close": "Close"}[failure])
+			before := vr4Snap(e.root)
+			w, err := e.b.Put(ctx, path, storage.PutWithAtomic())
+			if err != nil {
+				v.report("%s: Put fails: %v", input, err)
+				continue
+			}
+			woc, ok := w.(*writeObjectCloser)
+			if !ok {
+				continue
+			}
+			_ = woc.file.Close()
+			if failure == "write" {
+				if _, err := w.Write([]byte("new")); err == nil {
+					v.report("%s: Write on the closed file returns a nil error", input)
+				}
+			}
+			if err := w.Close(); err == nil {
+				v.report("%s: Close returns nil although the %s failed; documented: the failure is returned and the object is not installed", input, failure)
+			}
+			if d := vr4Diff(before, vr4Snap(e.root)); d != "" {
+				v.report("%s: afterwards the bucket directory is not what it was before the failed put: %s", input, d)
+			}
+		}
+	}
+	{
+		tried++
+		e := vr4NewEnv(t, symlinks)
+		input := fmt.Sprintf("%s: Put(\"d\", atomic) (the final path is a non-empty directory, so the rename fails), Write(\"new\"), Close", e)
+		before := vr4Snap(e.root)
+		if w, err := e.b.Put(ctx, "d", storage.PutWithAtomic()); err == nil {
+			_, _ = w.Write([]byte("new"))
+			if err := w.Close(); err == nil {
+				v.report("%s: Close returns nil although the object could not be installed", input)
+			}
+		}
+		if d := vr4Diff(before, vr4Snap(e.root)); d != "" {
+			v.report("%s: afterwards the bucket directory is not what it was before the failed put: %s", input, d)
+		}
+	}
+	// refused puts: below a regular file; through a symlinked directory unless symlinks are followed
+	for _, atomic := range []bool{false, true} {
+		var opts []storage.PutOption
+		if atomic {
+			opts = append(opts, storage.PutWithAtomic())
+		}
+		for _, path := range []string{"a.txt/x", "d/b.txt/y/z", "linkfile/x", "dangling/x"} {
+			tried++
+			e := vr4NewEnv(t, symlinks)
+			input := fmt.Sprintf("%s: Put(%q, atomic=%v)", e, path, atomic)
+			before, beside := vr4Snap(e.root), vr4Snap(e.base)
+			w, err := e.b.Put(ctx, path, opts...)
+			if err == nil {
+				_, _ = w.Write([]byte("new"))
+				_ = w.Close()
+				if path != "dangling/x" || !symlinks { // following a dangling link may create its target directory: not asserted
+					v.report("%s succeeds although a parent of the path is not a directory; documented: not-a-directory error, nothing written", input)
+				}
+				continue
+			}
+			if d := vr4Diff(before, vr4Snap(e.root)); d != "" {
+				v.report("%s fails (%v) but changed the bucket directory: %s", input, err, d)
+			} else if d := vr4Diff(beside, vr4Snap(e.base)); d != "" && path != "dangling/x" {
+				v.report("%s fails (%v) but changed files beside the bucket: %s", input, err, d)
+			}
+		}
+		tried++
+		e := vr4NewEnv(t, symlinks)
+		input := fmt.Sprintf("%s: Put(\"linkdir/x\", atomic=%v), Write(\"new\"), Close", e, atomic)
+		beside := vr4Snap(e.base)
+		w, err := e.b.Put(ctx, "linkdir/x", opts...)
+		if err == nil {
+			_, _ = w.Write([]byte("new"))
+			err = w.Close()
+		}
+		after := vr4Snap(e.base)
+		if !symlinks {
+			if err == nil {
+				v.report("%s succeeds: a bucket that does not follow symlinks wrote through the symlinked directory linkdir -> ../outside (outside/x is now %s); documented: not a directory", input, after["outside/x"])
+			} else if d := vr4Diff(beside, after); d != "" {
+				v.report("%s fails (%v) but changed files: %s", input, err, d)
+			}
+		} else {
+			want := vr4Copy(beside)
+			want["outside/x"] = `file "new"`
+			if err != nil {
+				v.report("%s fails: %v; documented: a bucket that follows symlinks writes through the symlinked directory", input, err)
+			} else if d := vr4Diff(want, after); d != "" {
+				v.report("%s: afterwards the tree differs from {old tree + outside/x}: %s", input, d)
+			}
+		}
+	}
+	return tried
+}
+
+func vr4Read(t *testing.T, ctx context.Context, v *vm14, symlinks bool) int {
+	tried := 0
+	e := vr4NewEnv(t, symlinks)
+	type want struct {
+		data  string
+		found bool
+	}
+	probes := []struct {
+		path       string
+		nosym, sym want
+	}{
+		{"a.txt", want{"A", true}, want{"A", true}},
+		{"d/b.txt", want{"B", true}, want{"B", true}},
+		{"d", want{}, want{}},
+		{"emptydir", want{}, want{}},
+		{"zz", want{}, want{}},
+		{"d/zz", want{}, want{}},
+		{"zz/y", want{}, want{}},
+		{"a.txt/x", want{}, want{}},
+		{"d/b.txt/x/y", want{}, want{}},
+		{"linkfile", want{}, want{"P", true}},
+		{"linkdir", want{}, want{}},
+		{"dangling", want{}, want{}},
+		{"dangling/x", want{}, want{}},
+	}
+	before := vr4Snap(e.base)
+	for _, p := range probes {
+		tried++
+		w := p.nosym
+		if symlinks {
+			w = p.sym
+		}
+		input := fmt.Sprintf("%s: Get/Stat(%q)", e, p.path)
+		info, statErr := e.b.Stat(ctx, p.path)
+		obj, getErr := e.b.Get(ctx, p.path)
+		if !w.found {
+			switch {
+			case statErr == nil || getErr == nil:
+				v.report("%s find an object (stat err %v, get err %v); documented: only regular files%s are objects, this path is not one", input, statErr, getErr, map[bool]string{true: " (links followed)", false: ""}[symlinks])
+			case !vr4NotExistNaming(statErr, p.path):
+				v.report("%s: Stat returns %q; documented: a not-exist *fs.PathError naming the bucket path %q", input, statErr, p.path)
+			case !vr4NotExistNaming(getErr, p.path):
+				v.report("%s: Get returns %q; documented: a not-exist *fs.PathError naming the bucket path %q", input, getErr, p.path)
+			case info != nil || obj != nil:
+				v.report("%s fail but return a non-nil object", input)
+			}
+			if obj != nil && getErr == nil {
+				_ = obj.Close()
+			}
+			continue
+		}
+		if statErr != nil || getErr != nil {
+			v.report("%s fail (stat: %v, get: %v) although the path is a regular file with %q", input, statErr, getErr, w.data)
+			continue
+		}
+		ext := filepath.Join(e.root, filepath.FromSlash(p.path))
+		data, readErr := io.ReadAll(obj)
+		closeErr := obj.Close()
+		if string(data) != w.data || readErr != nil || closeErr != nil {
+			v.report("%s: reading the object gives %q, %v, close %v; the file holds %q", input, data, readErr, closeErr, w.data)
+		}
+		if obj.Path() != p.path || info.Path() != p.path || obj.ExternalPath() != ext || info.ExternalPath() != ext || obj.LocalPath() != ext || info.LocalPath() != ext {
+			v.report("%s: path/external/local = %q %q %q (Get) %q %q %q (Stat); documented %q %q %q", input, obj.Path(), obj.ExternalPath(), obj.LocalPath(), info.Path(), info.ExternalPath(), info.LocalPath(), p.path, ext, ext)
+		}
+		if _, err := obj.Read(make([]byte, 1)); err == nil {
+			v.report("%s: Read after Close succeeds", input)
+		}
+	}
+	if d := vr4Diff(before, vr4Snap(e.base)); d != "" {
+		v.report("%s: Get/Stat changed files: %s", e, d)
+	}
+	return tried
+}
+
+func vr4Walk(t *testing.T, ctx context.Context, v *vm14, symlinks bool) int {
+	tried := 0
+	e := vr4NewEnv(t, symlinks)
+	for _, c := range []struct {
+		prefix     string
+		nosym, sym []string
+	}{
+		{"", []string{"a.txt", "d/b.txt"}, []string{"a.txt", "d/b.txt", "linkdir/o.txt", "linkfile"}},
+		{".", []string{"a.txt", "d/b.txt"}, []string{"a.txt", "d/b.txt", "linkdir/o.txt", "linkfile"}},
+		{"d", []string{"d/b.txt"}, []string{"d/b.txt"}},
+		{"a.txt", []string{"a.txt"}, []string{"a.txt"}},
+		{"emptydir", nil, nil},
+		{"zz", nil, nil},
+		{"zz/y", nil, nil},
+		{"dangling", nil, nil},
+		{"linkdir", nil, []string{"linkdir/o.txt"}},
+		{"linkfile", nil, []string{"linkfile"}},
+	} {
+		tried++
+		want := c.nosym
+		if symlinks {
+			want = c.sym
+		}
+		var got []string
+		bad := ""
+		err := e.b.Walk(ctx, c.prefix, func(info storage.ObjectInfo) error {
+			got = append(got, info.Path())
+			if ext := filepath.Join(e.root, filepath.FromSlash(info.Path())); info.ExternalPath() != ext && bad == "" {
+				bad = fmt.Sprintf("%s has external path %q instead of %q", info.Path(), info.ExternalPath(), ext)
+			}
+			return nil
+		})
+		sort.Strings(got)
+		input := fmt.Sprintf("%s: Walk(%q)", e, c.prefix)
+		if err != nil {
+			v.report("%s fails: %v (visited %v); documented: visits %v", input, err, got, want)
+		} else if fmt.Sprint(got) != fmt.Sprint(want) {
+			v.report("%s visits %v; documented: exactly the regular files under the prefix, symlinks followed=%v: %v", input, got, symlinks, want)
+		} else if bad != "" {
+			v.report("%s: %s", input, bad)
+		}
+	}
+	// an error of the callback stops the walk and is returned
+	tried++
+	stop := errors.New("stop")
+	calls := 0
+	if err := e.b.Walk(ctx, "", func(storage.ObjectInfo) error { calls++; return stop }); !errors.Is(err, stop) || calls != 1 {
+		v.report("%s: Walk(\"\") with a callback that fails on the first object returns %v after %d calls; documented: that error after 1 call", e, err, calls)
+	}
+	return tried
+}
+
+func vr4Delete(t *testing.T, ctx context.Context, v *vm14, symlinks bool) int {
+	tried := 0
+	for _, path := range []string{"a.txt", "d/b.txt", "zz", "d/zz", "d", "emptydir", "linkfile", "linkdir", "dangling"} {
+		tried++
+		e := vr4NewEnv(t, symlinks)
+		input := fmt.Sprintf("%s: Delete(%q)", e, path)
+		before := vr4Snap(e.base)
+		_, existed := before["root/"+path]
+		err := e.b.Delete(ctx, path)
+		after := vr4Snap(e.base)
+		_, exists := after["root/"+path]
+		want := vr4Copy(before)
+		if err == nil {
+			delete(want, "root/"+path)
+		}
+		switch {
+		case err == nil && (!existed || exists):
+			v.report("%s returns nil but the path was %s before and is %s afterwards; documented: nil exactly when the object was removed", input, map[bool]string{true: "present", false: "absent"}[existed], map[bool]string{true: "still present", false: "absent"}[exists])
+		case !existed && !vr4NotExistNaming(err, path):
+			v.report("%s returns %q; documented: a not-exist *fs.PathError naming the bucket path", input, err)
+		case vr4Diff(want, after) != "":
+			v.report("%s (returned %v) changed more than the one entry: %s", input, err, vr4Diff(want, after))
+		case existed && err != nil && before["root/"+path] != "dir":
+			v.report("%s fails: %v although the path is a %s", input, err, before["root/"+path])
+		}
+	}
+	for _, prefix := range []string{"d", "a.txt", "zz", "emptydir", "linkdir", "linkfile", "d/b.txt"} {
+		tried++
+		e := vr4NewEnv(t, symlinks)
+		input := fmt.Sprintf("%s: DeleteAll(%q)", e, prefix)
+		before := vr4Snap(e.base)
+		err := e.b.DeleteAll(ctx, prefix)
+		want := vr4Copy(before)
+		for p := range want {
+			if p == "root/"+prefix || strings.HasPrefix(p, "root/"+prefix+"/") {
+				delete(want, p)
+			}
+		}
+		if err != nil {
+			v.report("%s fails: %v", input, err)
+		} else if d := vr4Diff(want, vr4Snap(e.base)); d != "" {
+			v.report("%s: afterwards the tree differs from {old tree minus everything under the prefix; link targets untouched}: %s", input, d)
+		}
+	}
+	return tried
+}
+
+func vr4Provider(t *testing.T, ctx context.Context, v *vm14) int {
+	tried := 0
+	e := vr4NewEnv(t, false)
+	for _, providerOpt := range []bool{false, true} {
+		for _, bucketOpt := range []bool{false, true} {
+			tried++
+			var popts []ProviderOption
+			if providerOpt {
+				popts = append(popts, ProviderWithSymlinks())
+			}
+			var bopts []ReadWriteBucketOption
+			if bucketOpt {
+				bopts = append(bopts, ReadWriteBucketWithSymlinksIfSupported())
+			}
+			input := fmt.Sprintf("NewProvider(symlinks=%v).NewReadWriteBucket(root, symlinksIfSupported=%v)", providerOpt, bucketOpt)
+			for _, spelled := range []string{e.root, e.root + "/./", e.root + "/d/.."} {
+				rw, err := NewProvider(popts...).NewReadWriteBucket(spelled, bopts...)
+				if err != nil {
+					v.report("%s with root spelled %q fails: %v", input, spelled, err)
+					continue
+				}
+				b, ok := rw.(*bucket)
+				if !ok {
+					v.report("%s returns a %T", input, rw)
+					continue
+				}
+				if b.symlinks != (providerOpt && bucketOpt) {
+					v.report("%s: the bucket follows symlinks = %v; documented: only if both the provider and the bucket ask for it", input, b.symlinks)
+				}
+				if b.rootPath != filepath.ToSlash(e.root) {
+					v.report("%s with root spelled %q: the bucket is rooted at %q; documented: the normalized root %q", input, spelled, b.rootPath, e.root)
+				}
+				if rw.SetExternalAndLocalPathsSupported() {
+					v.report("%s: SetExternalAndLocalPathsSupported() is true for a disk bucket", input)
+				}
+				_, err = rw.Stat(ctx, "linkfile")
+				if (err == nil) != (providerOpt && bucketOpt) {
+					v.report("%s: Stat(\"linkfile\") (a symlink to a regular file) returns %v; documented: an object exactly when symlinks are followed", input, err)
+				}
+			}
+			for _, c := range []struct {
+				rootPath string
+				ok       bool
+			}{
+				{filepath.Join(e.root, "a.txt"), false},
+				{filepath.Join(e.root, "zz"), false},
+				{filepath.Join(e.root, "linkfile"), false},
+				{filepath.Join(e.root, "dangling"), false},
+				{filepath.Join(e.root, "emptydir"), true},
+				{filepath.Join(e.root, "linkdir"), providerOpt && bucketOpt},
+			} {
+				tried++
+				rw, err := NewProvider(popts...).NewReadWriteBucket(c.rootPath, bopts...)
+				_ = rw
+				if (err == nil) != c.ok {
+					rel, _ := filepath.Rel(e.root, c.rootPath)
+					v.report("%s with root = %s of {a.txt, emptydir/, linkfile -> file, linkdir -> dir, dangling}: returns %v; documented: success=%v (the root must be a directory, a link to one only when links are followed)", input, rel, err, c.ok)
+				}
+			}
+		}
+	}
+	if p, ok := NewProvider().(*provider); !ok || p.symlinks {
+		v.report("NewProvider() without options follows symlinks")
+	}
+	if o := newReadWriteBucketOptions(); o == nil || o.symlinksIfSupported {
+		v.report("newReadWriteBucketOptions() has symlinksIfSupported set")
+	}
+	if err := toStorageError(os.ErrClosed); err != storage.ErrClosed {
+		v.report("toStorageError(os.ErrClosed) = %v; documented storage.ErrClosed", err)
+	}
+	other := errors.New("other")
+	if err := toStorageError(other); err != other {
+		v.report("toStorageError(other error) = %v; documented: unchanged", err)
+	}
+	if toStorageError(nil) != nil {
+		v.report("toStorageError(nil) != nil")
+	}
+	return tried
 }
